@@ -116,6 +116,7 @@ pub fn generic_type_alphabet(params: ParamForm, include_cf3: bool) -> Vec<Ty> {
         ]);
         if include_cf3 {
             v.push(Ty::Box(b(t.clone())));
+            v.push(Ty::Cow(b(t.clone())));
         }
     }
     if params == ParamForm::Two {
@@ -357,7 +358,7 @@ pub fn coincidence(def: &Def, args: &[Ty], prog: &Program) -> Result<(), &'stati
     }
     for f in def.all_fields() {
         // CF3: parameter directly under a transparent wrapper at field level
-        if let Ty::Box(inner) = &f.ty {
+        if let Ty::Box(inner) | Ty::Cow(inner) = &f.ty {
             if matches!(strip_box(inner), Ty::Param(_)) {
                 return Err("CF3: parameter directly under Box at field level");
             }
